@@ -172,3 +172,67 @@ func fieldWriters(fis []*FuncInfo, tracked map[string]bool) []fieldWrite {
 	}
 	return out
 }
+
+// fieldReads: every selector in fi's body resolving to a field of one of the named struct types that is
+// not purely a write target: "Type.Field" → first position. (A field on the left of `=` is not a read;
+// `x.f op= v`, x.f++ and method calls through the field are reads as well as writes.)
+func fieldReads(fi *FuncInfo, structNames map[string]bool) map[string]token.Pos {
+	out := map[string]token.Pos{}
+	if fi.Decl.Body == nil {
+		return out
+	}
+	info := fi.Pkg.TypesInfo
+	pureWrites := map[*ast.SelectorExpr]bool{}
+	ast.Inspect(fi.Decl.Body, func(n ast.Node) bool {
+		if as, ok := n.(*ast.AssignStmt); ok && (as.Tok == token.ASSIGN || as.Tok == token.DEFINE) {
+			for _, l := range as.Lhs {
+				if sel, ok := ast.Unparen(l).(*ast.SelectorExpr); ok {
+					pureWrites[sel] = true
+				}
+			}
+		}
+		return true
+	})
+	ast.Inspect(fi.Decl.Body, func(n ast.Node) bool {
+		sel, ok := n.(*ast.SelectorExpr)
+		if !ok || pureWrites[sel] {
+			return true
+		}
+		k := fieldKey(info, sel)
+		if k == "" {
+			return true
+		}
+		if i := strings.IndexByte(k, '.'); i > 0 && structNames[k[:i]] {
+			if _, seen := out[k]; !seen {
+				out[k] = sel.Pos()
+			}
+		}
+		return true
+	})
+	return out
+}
+
+// structFieldNames lists the fields of a named struct type of the package ("Type.Field"), expanding
+// embedded structs of the same package into their own "Embedded.Field" names.
+func structFieldNames(pkg *types.Package, name string) []string {
+	obj := pkg.Scope().Lookup(name)
+	if obj == nil {
+		return nil
+	}
+	st, ok := obj.Type().Underlying().(*types.Struct)
+	if !ok {
+		return nil
+	}
+	var out []string
+	for i := 0; i < st.NumFields(); i++ {
+		f := st.Field(i)
+		if f.Embedded() {
+			if n, ok := f.Type().(*types.Named); ok && n.Obj().Pkg() == pkg {
+				out = append(out, structFieldNames(pkg, n.Obj().Name())...)
+				continue
+			}
+		}
+		out = append(out, name+"."+f.Name())
+	}
+	return out
+}
